@@ -13,7 +13,7 @@ boundary produces for everything the two calls can share (module globals, class 
 helper objects); thread-local storage does not exist in this code base.  Scheduling points are the 'line' events of frames
 whose code lives under the package source directory, so C-level numpy work is atomic (as it is under the GIL).
 
-A real lock would make some of these schedules infeasible (B would block until A releases).  A watchdog timer (3 s,
+A real lock would make some of these schedules infeasible (B would block until A releases).  A watchdog timer (1.5 s,
 SIGALRM) turns a nested call that blocks into Infeasible: such a schedule is skipped instead of deadlocking, and counted.
 (install_lock_stubs() offers the same without waiting, for harnesses that can afford to replace threading.Lock globally.)
 
@@ -27,22 +27,35 @@ class Infeasible(BaseException):
     pass
 
 
+CUR = [0]      # which logical thread is running: 0 = the main / suspended call A, 1 = the nested call B
+
+
 class _ExploreLock:
-    """stand-in for threading.Lock during exploration: single-threaded, so 'held by the suspended call' = would block."""
+    """stand-in for threading.Lock during exploration: single-threaded, so 'held by the other logical thread' = would block
+    = the schedule is infeasible.  Outside an exploration it behaves like an uncontended lock."""
 
     def __init__(self, *a, **k):
         self._held = 0
+        self._owner = None
         self._reentrant = False
 
     def acquire(self, blocking=True, timeout=-1):
-        if self._held and not self._reentrant:
-            raise Infeasible()
+        if self._held:
+            if self._owner != CUR[0]:
+                if not blocking:
+                    return False
+                raise Infeasible()
+            if not self._reentrant:
+                raise RuntimeError("deadlock: non-reentrant lock acquired twice by one call")
         self._held += 1
+        self._owner = CUR[0]
         return True
 
     def release(self):
         if self._held:
             self._held -= 1
+            if not self._held:
+                self._owner = None
 
     def locked(self):
         return bool(self._held)
@@ -56,14 +69,36 @@ class _ExploreLock:
 class _ExploreRLock(_ExploreLock):
     def __init__(self, *a, **k):
         super().__init__()
-        self._reentrant = False     # re-entry by the SAME call is fine in reality, but here the nested call is "another thread":
-        #                             an RLock held by the suspended call blocks it too
+        self._reentrant = True      # re-entry by the same logical thread is fine; the other one is blocked (Infeasible)
 
 
 def install_lock_stubs():
     """to be called BEFORE the package under test is imported."""
     threading.Lock = _ExploreLock
     threading.RLock = _ExploreRLock
+
+
+_STUBBED = set()
+
+
+def stub_package_locks(src_prefix):
+    """replace the real locks the package under test keeps in module globals / class attributes by exploration locks
+    (idempotent).  A lock that cannot be found this way (captured in a closure, created per call) still works: a nested
+    call blocking on it is cut off by the watchdog in run_schedule and counted as infeasible - only slower."""
+    import _thread
+    real = (_thread.LockType, type(threading.RLock()))
+    for name, mod in list(sys.modules.items()):
+        f = getattr(mod, "__file__", None)
+        if not f or not f.startswith(src_prefix) or name in _STUBBED:
+            continue
+        _STUBBED.add(name)
+        for holder in [mod] + [v for v in vars(mod).values() if isinstance(v, type) and getattr(v, "__module__", None) == name]:
+            for k, v in list(vars(holder).items()):
+                if isinstance(v, real):
+                    try:
+                        setattr(holder, k, _ExploreRLock() if isinstance(v, real[1]) else _ExploreLock())
+                    except (AttributeError, TypeError):
+                        pass
 
 
 def _run(f, args):
@@ -108,12 +143,14 @@ def run_schedule(fa, args_a, fb, args_b, k, src_prefix):
             if st["n"] == k and not st["fired"]:
                 st["fired"] = True
                 st["in_b"] = True
+                CUR[0] = 1
                 try:
                     st["rb"] = _run(fb, args_b)
                 except Infeasible:
                     st["infeasible"] = True
                 finally:
                     st["in_b"] = False
+                    CUR[0] = 0
         return local
 
     def glob(frame, event, arg):
@@ -129,7 +166,7 @@ def run_schedule(fa, args_a, fb, args_b, k, src_prefix):
     old = sys.gettrace()
     try:
         old_h = signal.signal(signal.SIGALRM, on_alarm)
-        signal.setitimer(signal.ITIMER_REAL, 3.0)
+        signal.setitimer(signal.ITIMER_REAL, 1.5)
         timer = True
     except ValueError:              # not in the main thread: no watchdog
         timer = False
@@ -150,6 +187,7 @@ def run_schedule(fa, args_a, fb, args_b, k, src_prefix):
 
 
 def explore(fa, args_a, fb, args_b, src_prefix, max_points=400):
+    stub_package_locks(src_prefix)
     n, _ = count_points(fa, args_a, src_prefix)
     out, infeasible = [], 0
     for k in range(1, min(n, max_points) + 1):
